@@ -14,7 +14,7 @@ import ast
 from sa import sym, termdiff, boolalg
 from sa.sym import show, num, num_value, atoms_of
 from sa.model import dotted, own_calls, own_nodes, callee_attr
-from . import memo
+from . import memo, common
 
 COLL = "toasty.collection"
 
@@ -48,6 +48,18 @@ def run(run):
     _r5_shape_agreement(run)
 
 
+def _self_calls(t):
+    """Calls of a callable stored on the object (`self._option_for(i)`): an object or closure the rule has not looked into."""
+    out = []
+    if isinstance(t, tuple):
+        if t and t[0] == "call" and len(t) == 4 and t[1][0] == "attr" and t[1][1] == ("sym", "self"):
+            out.append(t)
+        for x in t:
+            if isinstance(x, tuple):
+                out.extend(_self_calls(x))
+    return out
+
+
 def _leaves(t, conds=()):
     if t[0] == "ite":
         yield from _leaves(t[2], conds + ((t[1], True),))
@@ -60,7 +72,22 @@ def _r1_r2(run, ev):
     project = run.project
     f = project.fn(COLL + ".SimpleFitsCollection._scan_hdus")
     run.note_func(f)
-    r = ev.run(f.node)
+    # the object as its constructor leaves it: plain fields (`self._hdu_index = hdu_index`) or small option objects built from the
+    # constructor's arguments (their fields are followed, calling them runs their __call__)
+    SELF = ("sym", "self")
+    init = project.fn(COLL + ".SimpleFitsCollection.__init__")
+    facts = {}
+    try:
+        ev.model_objects = True
+        ri = ev.run(init.node)
+        for k, v in (ri.env or {}).items():
+            if isinstance(k, tuple) and k[0] == "attr" and k[1] == SELF and k[2] != "_paths":
+                facts[k] = v
+        for osym, (cq, fields) in ri.objects.items():
+            facts.update(fields)
+    except Exception:
+        facts = {}
+    r = ev.run(f.node, env=facts)
     if len(r.yields) != 1:
         run.undecided("C20.R1", f, None, "the scan has %d yield sites" % len(r.yields), kind="yield-sites")
         return
@@ -81,7 +108,8 @@ def _r1_r2(run, ev):
         run.violated("C20.R1", f, node, "the HDU list is not opened from the current path", kind="open-path")
         return
     hdul = ("op", "enter", (opens[0].term,))
-    sel = ("attr", ("sym", "self"), "_hdu_index")
+    # the user's selection: the field holding it, or (when the constructor hands it to an option object) the constructor's parameter
+    sel = facts.get(("attr", SELF, "_hdu_index"), ("sym", "hdu_index") if ("attr", SELF, "_hdu_index") not in facts and facts and "hdu_index" in init.params() else ("attr", SELF, "_hdu_index"))
     cases = list(_leaves(termdiff.lift(("tuple", (idx_t, hdu_t)))))
     seen_kinds = set()
     bad = False
@@ -142,6 +170,9 @@ def _r1_r2(run, ev):
             seen_kinds.add("scalar")
         elif idx == ("sub", sel, pidx):
             seen_kinds.add("list")
+        elif common.unfollowed_project_calls(project, idx) or _self_calls(idx):
+            run.undecided("C20.R1", f, node, "case %s: the selected index is %s, computed by something that is not followed" % (cdesc, show(idx)[:80]), kind="hdu-index-opaque")
+            bad = True
         else:
             run.violated("C20.R1", f, node, "case %s: the selected index is %s; expected the scalar itself or the list entry at the file's position "
                          "(self._hdu_index[path_index])" % (cdesc, show(idx)[:80]), kind="hdu-index-source")
@@ -162,7 +193,7 @@ def _r1_r2(run, ev):
     else:
         run.holds("C20.R1", f, None, "the scan keeps no state between files or passes")
     # ---- R2
-    ksel = ("attr", ("sym", "self"), "_wcs_key")
+    ksel = facts.get(("attr", SELF, "_wcs_key"), ("sym", "wcs_key") if ("attr", SELF, "_wcs_key") not in facts and facts and "wcs_key" in init.params() else ("attr", SELF, "_wcs_key"))
     kinds = set()
     badk = False
     for conds, leaf in _leaves(termdiff.lift(key_t)):
@@ -172,6 +203,10 @@ def _r1_r2(run, ev):
             kinds.add("list")
         elif leaf == ("const", " "):
             kinds.add("default")
+        elif common.unfollowed_project_calls(project, leaf) or _self_calls(leaf):
+            run.undecided("C20.R2", f, node, "WCS key is %s in case %s: computed by something that is not followed" % (show(leaf)[:60], [show(c)[:40] for c, p in conds]),
+                          kind="wcs-key-opaque")
+            badk = True
         else:
             run.violated("C20.R2", f, node, "WCS key is %s in case %s; expected the scalar, self._wcs_key[path_index] or ' '" % (show(leaf)[:60], [show(c)[:40] for c, p in conds]),
                          kind="wcs-key-source")
@@ -182,7 +217,7 @@ def _r1_r2(run, ev):
         run.violated("C20.R2", f, node, "WCS key selection handles only %s (scalar, per-file list and default ' ' are documented)" % sorted(kinds), kind="wcs-key-cases")
     # which test picks the scalar: isinstance(..., str) / int
     tests = {show(c) for conds, leaf in _leaves(termdiff.lift(("tuple", (idx_t, key_t)))) for c, p in conds}
-    ok_t = any("isinstance(self._hdu_index, int)" in t for t in tests) and any("isinstance(self._wcs_key, str)" in t for t in tests)
+    ok_t = any("isinstance(%s, int)" % show(sel) in t for t in tests) and any("isinstance(%s, str)" % show(ksel) in t for t in tests)
     if ok_t:
         run.holds("C20.R2", f, node, "scalar forms recognised by isinstance(int) / isinstance(str)")
     else:
@@ -330,13 +365,34 @@ def _r4(run):
     # constructor stores
     f = project.fn(COLL + ".SimpleFitsCollection.__init__")
     run.note_func(f)
-    r = sym.make_evaluator(project, COLL, []).run(f.node)
+    ev0 = sym.make_evaluator(project, COLL, [], inline_local=True)
+    ev0.model_objects = True          # an option may be wrapped in a small object of the module: its fields count as stored state
+    r = ev0.run(f.node)
     st = {e.term[1][0][2]: e.term[1][1] for e in r.events if e.kind == "store" and e.term[1][0][0] == "attr" and e.term[1][0][1] == ("sym", "self")}
-    ok = st.get("_hdu_index") == ("sym", "hdu_index") and st.get("_wcs_key") == ("sym", "wcs_key") and st.get("_blankval") == ("sym", "blankval") \
-        and st.get("_paths") == ("call", ("sym", "list"), (("sym", "paths"),), ())
-    (run.holds if ok else run.violated)("C20.R4", f, None, "collection stores paths (in order), hdu_index, wcs_key, blankval as given" if ok else
-                                        "SimpleFitsCollection.__init__ does not store its selection options unchanged (%s)" % {k: show(v)[:30] for k, v in st.items()},
-                                        **({} if ok else {"kind": "ctor-options"}))
+    kept = list(st.values())
+    for osym, (cq, fields) in r.objects.items():
+        kept += list(fields.values())
+    problems = []
+    opaque = []
+    for pname in ("hdu_index", "wcs_key", "blankval"):
+        P = ("sym", pname)
+        if P in kept:
+            continue
+        inside = [v for v in kept if P in _subterms(v)]
+        if inside and all(common.unfollowed_project_calls(project, v) for v in inside):
+            opaque.append((pname, inside[0]))
+        elif inside:
+            problems.append("%s is stored as %s" % (pname, show(inside[0])[:50]))
+        else:
+            problems.append("%s is not stored" % pname)
+    if st.get("_paths") != ("call", ("sym", "list"), (("sym", "paths"),), ()):
+        problems.append("_paths is %s" % show(st.get("_paths"))[:40])
+    if problems:
+        run.violated("C20.R4", f, None, "SimpleFitsCollection.__init__ does not keep its selection options unchanged: %s" % "; ".join(problems), kind="ctor-options")
+    elif opaque:
+        run.undecided("C20.R4", f, None, "SimpleFitsCollection.__init__ hands %s to %s, which is not followed" % (opaque[0][0], show(opaque[0][1])[:60]), kind="ctor-options-opaque")
+    else:
+        run.holds("C20.R4", f, None, "collection keeps paths (in order), hdu_index, wcs_key, blankval as given (plain fields or fields of its option objects)")
     # load_paths
     f = project.fn(COLL + ".CollectionLoader.load_paths")
     run.note_func(f)
@@ -393,6 +449,17 @@ def _r4(run):
         okc_reported = True
     else:
         okc_reported = False
+    if not okc_reported and not okc:
+        # the loader (or the settings) handed to something of the project that is not followed -- a table of option objects with
+        # parse / apply methods, a helper in another module: the stores may happen there
+        loaders = [e.term[1][0][1] for e in r.events if e.kind == "store" and e.term[1][0][0] == "attr"] + \
+                  [t for t in (rr[1] for rr in r.returns) if t is not None]
+        esc = common.opaque_project_calls(project, r, loaders + [("sym", p_) for p_ in f.params()])
+        esc = [e for e in esc if not (e.term[1][0] == "sym" and e.term[1][1] in ("cls", "CollectionLoader"))]
+        if esc:
+            run.undecided("C20.R4", f, esc[0].node, "create_from_args hands the loader / the settings to %s, which is not followed: cannot tell how the options reach the "
+                          "loader" % show(esc[0].term[1])[:60], kind="cli-options-opaque")
+            okc_reported = True
     if not okc_reported:
         (run.holds if okc else run.violated)("C20.R4", f, None, "command line: --hdu-index / --wcs-key / --blankval parsed into the loader" if okc else
                                          "create_from_args does not derive loader.%s from the parsed command-line settings" % [k for k in ("hdu_index", "wcs_key", "blankval") if k not in st],
